@@ -18,7 +18,7 @@ from vlib.core import Stage, fail
 ID = "C02"
 MANIFEST = {
     "category": "exploration",
-    "text": "Generated-input search over strings: well-formed expressions rendered from ASTs (40%), near misses made by 1-3 character edits of them (40%) and arbitrary text incl. exotic code points (20%) go through parse_condition_expression_to_tree, the AHB parser, the resolver and is_valid_expression. A hand-written tokenizer + recursive-descent recogniser decides accept/reject for the condition parser (both directions); for the resolver, strict C09 forms must be accepted, anything returned must be fully resolved and acceptable to a lenient AHB recogniser whose condition parts pass the strict recogniser, and everything else must raise SyntaxError; no other exception type may escape anywhere. One slice is enumerated completely: every string of length <= 4 (thorough: <= 5) over the 12-character alphabet '[]()1PUB. MX' (22 621 / 271 453 strings) through all entry points. The thorough tier adds a coverage-guided atheris stage driving the same oracle. Near misses also include word-level edits: one run of letters replaced by a word that is nearly a modal mark (Moll, Kuss, Mus, Musss ...).",
+    "text": "Generated-input search over strings: well-formed expressions rendered from ASTs (40%), near misses made by 1-3 character edits of them (40%) and arbitrary text incl. exotic code points (20%) go through parse_condition_expression_to_tree, the AHB parser, the resolver and is_valid_expression. A hand-written tokenizer + recursive-descent recogniser decides accept/reject for the condition parser (both directions); for the resolver, strict C09 forms must be accepted, anything returned must be fully resolved and acceptable to a lenient AHB recogniser whose condition parts pass the strict recogniser, and everything else must raise SyntaxError; no other exception type may escape anywhere. One slice is enumerated completely: every string of length <= 4 (thorough: <= 5) over the 12-character alphabet '[]()1PUB. MX' (22 621 / 271 453 strings) through all entry points. The thorough tier adds a coverage-guided atheris stage driving the same oracle. Near misses also include word-level edits: one run of letters replaced by a word that is nearly a modal mark (Moll, Kuss, Mus, Musss ...). Stage deep (plain enumeration, outside Hypothesis, which raises the recursion limit): well-formed expressions of five shapes nested 60-600 (thorough: 900) levels deep, by construction, through the condition parser (twice), the AHB parser and the resolver; nothing may raise. One known finding is excluded by construction and counted: RecursionError out of the resolver from 330 levels on (known_findings.json).",
     "note": "Trusted: the reference recogniser in vlib/ref.py (cross-validated against the parser on 10^5 strings with zero disagreements on the unchanged tree), Hypothesis, atheris. Two narrow unspecified zones where only the no-foreign-exception clause is checked: strings that are well-formed only if a repeatability may be written with non-ASCII decimal digits (the grammar's own \\d), and AHB strings containing U+017F / U+212A, which re.IGNORECASE folds onto the s / k of the modal marks. Keys and package keys must be ASCII integers. Process configuration by shard (vlib/sut.py; recorded in replay files): plain / parse caches preheated beyond their size / warnings attributed to ahbicht raised as errors / logging fully enabled with every record rendered.",
     "technique": "property-based testing / fuzzing of the parsers against an independent reference recogniser (differential, both directions)",
 }
@@ -323,6 +323,98 @@ def check_small(case):
     return {"_bulk": {"evaluations": count, "nontrivial": accepted, "samples": [{"accepted": sample}] if sample else []}}
 
 
+# ------------------------------------------------------------------------------------ deep nesting (by construction)
+
+DEEP_SHAPES = ["right", "left", "brackets", "then-also", "mixed"]
+DEEP_DEPTHS = {"quick": [60, 150, 230, 260, 320, 450, 600], "thorough": [60, 150, 230, 245, 260, 320, 380, 450, 600, 900]}
+# Below this depth nothing may raise anywhere.  From about 400 levels on, lark's recursive Transformer inside the
+# resolver exceeds the interpreter's recursion limit: known finding "deep:resolver-recursion" (known_findings.json).
+RESOLVER_RECURSION_FROM = 330
+
+
+def deep_expression(shape, depth):
+    """a well-formed condition expression with `depth` levels of nesting - well-formed by construction"""
+    ops = {"right": [" U "], "left": [" O "], "then-also": [""], "mixed": [" U ", " X ", "", " ∨ "]}.get(shape, [""])
+    text = "[1]"
+    for level in range(depth):
+        op = ops[level % len(ops)]
+        if shape == "brackets":
+            text = f"({text})"
+        elif shape == "left":
+            text = f"({text}){op}[{level % 400 + 1}]"
+        else:
+            text = f"[{level % 400 + 1}]{op}({text})"
+    return text
+
+
+def tree_depth(tree):
+    """nesting depth of a lark tree, iteratively"""
+    from lark import Tree
+
+    deepest, stack = 0, [(tree, 1)]
+    while stack:
+        node, depth = stack.pop()
+        deepest = max(deepest, depth)
+        stack.extend((child, depth + 1) for child in node.children if isinstance(child, Tree))
+    return deepest
+
+
+def check_deep(case):
+    from lark import Tree
+
+    from vlib.core import known_signatures
+
+    parse_cond, parse_ahb, resolve, _ = _api()
+    shape, depth = case["shape"], case["depth"]
+    text = deep_expression(shape, depth)
+    what = f"the well-formed expression of shape {shape!r} nested {depth} levels deep ({len(text)} characters)"
+    info = {"known": 0}
+    res = sut.call(parse_cond, text)
+    if not res.ok or not isinstance(res.value, Tree):
+        fail("deep-cond", f"condition parser did not return a tree for {what}: {res!r}"[:600])
+    if shape != "brackets" and tree_depth(res.value) < depth:
+        fail("deep-cond", f"condition parser returned a tree of depth {tree_depth(res.value)} for {what}")
+    again = sut.call(parse_cond, text)  # from the cache
+    if not again.ok:
+        fail("deep-cond", f"second parse of {what} raised {again!r}"[:600])
+    indicator = case.get("indicator", "Muss")
+    res = sut.call(parse_ahb, f"{indicator} {text}")
+    if not res.ok:
+        fail("deep-ahb", f"AHB parser raised {res!r} for '{indicator} ' + {what}"[:600])
+    for argument, label in ((text, "the condition expression"), (f"{indicator} {text}", "the AHB expression")):
+        res = sut.call(resolve, argument, False, True)
+        if res.ok:
+            if _unresolved_tokens(res.value):
+                fail("deep-resolver", f"resolver left {label} of {what} unresolved")
+            continue
+        if res.is_a(RecursionError) and depth >= RESOLVER_RECURSION_FROM and "deep:resolver-recursion" in known_signatures(ID):
+            info["known"] += 1  # excluded by construction, counted; any other failure is still reported
+            continue
+        clause = "resolver-recursion" if res.is_a(RecursionError) and depth >= RESOLVER_RECURSION_FROM else "deep-resolver"
+        fail(clause, f"resolver raised {res!r} for {label}: {what} (only SyntaxError may escape, and this one is well-formed)"[:700])
+    return info
+
+
+def signature(stage, case, clause):  # pylint:disable=unused-argument
+    return f"{stage}:{clause}"
+
+
+def enumerate_deep(tier, shard, nshards, seed):  # pylint:disable=unused-argument
+    index = 0
+    for depth in DEEP_DEPTHS[tier]:
+        for shape in DEEP_SHAPES:
+            if index % nshards == shard:
+                yield {"shape": shape, "depth": depth, "indicator": ["Muss", "x", "soll", "K"][index % 4]}
+            index += 1
+
+
+def classify_deep(case, info):
+    labels = ["shape=" + case["shape"], f"depth>={case['depth'] // 100 * 100}"]
+    if info["known"]:
+        labels.append("excluded:known-finding-resolver-recursion")
+    return labels, case["depth"] >= 200
+
+
 # ------------------------------------------------------------------------------- coverage-guided stage (atheris)
 
 
@@ -391,5 +483,7 @@ STAGES = [
                   "resolver-accepted": 0.2, "resolver-rejected": 0.3}),
     Stage(name="all-short-strings", kind="enum", check=check_small, classify=lambda c, i: (["prefix-block"], True),
           enumerate=enumerate_small, exhaustive=True),
+    Stage(name="deep", kind="enum", check=check_deep, classify=classify_deep, enumerate=enumerate_deep,
+          sample=lambda c: {"shape": c["shape"], "depth": c["depth"]}),
     Stage(name="fuzz", kind="enum", check=check_fuzz, classify=classify_fuzz, enumerate=enumerate_fuzz, tiers=("thorough",)),
 ]  # fmt: skip
